@@ -24,15 +24,15 @@ def run(chk):
     toy_insts = [i for i in insts if i["k"] <= (4 if q else 6)]
     if q:
         toy_insts = toy_insts[::2]
-    for curve in ["toy79", "toy31723"]:
-        vlib.write_ndjson(ip, toy_insts)
+    for curve in ["toy7", "toy79", "toy31723"]:
+        vlib.write_ndjson(ip, toy_insts if curve != "toy7" else [i for i in toy_insts if i["k"] <= 3])
         tp, rp = chk.path("ipp_%s.tr" % curve), chk.path("ipp_%s.res" % curve)
         vlib.harness("ipp", "--curve", curve, "--instances", ip, "--seed", chk.seed, "--out", tp, "--results", rp)
         for row in vlib.read_ndjson(rp):
             chk.count_case([curve, row["inst"]])
             if row["bad"]:
                 chk.violation("ipp-%s-%d" % (curve, row["i"]), {"curve": curve, "inst": row["inst"], "seed": chk.seed, "bad": row["bad"]}, "; ".join(row["bad"]))
-        acc, rej = vlib.validate_aux(chk, tp, curve)
+        acc, rej = vlib.validate_aux(chk, tp, curve, env={"CMP_L": "0"})     # labels are not this property's business
         for e in rej:
             chk.violation("ipp-%s-%s-n%s-%s" % (curve, e["ev"], e.get("n"), e.get("kind", "")), {"curve": curve, "event": e},
                           "%s (%s): not what the specification computes" % (e["ev"], e.get("kind", "")))
